@@ -141,3 +141,31 @@ func VerifC02Merge() {
 	verifC02CheckResult(out, all, false, "merge")
 	verifrt.Reach("end")
 }
+
+// VerifC02SortLong: a series buffer of 16 in-order rows followed by one overwrite of an arbitrary earlier
+// timestamp (times are concrete here, values arbitrary): after sort and de-duplication the overwritten row
+// carries the later value. Sorting must be stable for buffers of this size too (library sorts switch
+// algorithm above a dozen elements).
+func VerifC02SortLong() {
+	const n = 16
+	rows := make([]verifC02Row, 0, n+1)
+	for i := 0; i < n; i++ {
+		rows = append(rows, verifC02Row{t: int64(10 * i), a: verifrt.Int64("a"), bNull: true})
+	}
+	k := verifrt.Choose("overwrite", n)
+	rows = append(rows, verifC02Row{t: int64(10 * k), a: verifrt.Int64("late"), bNull: true})
+	rec := verifC02Build(rows)
+	out := NewColumnSortHelper().Sort(rec)
+	verifrt.Assert(out.RowNums() == n, "sort/dedup returns a different number of rows than distinct timestamps")
+	times := out.Times()
+	for i := 0; i < n; i++ {
+		verifrt.Assert(times[i] == int64(10*i), "rows are not in time order after the sort")
+		v, isNil := out.ColVals[0].IntegerValue(i)
+		want := rows[i].a
+		if i == k {
+			want = rows[n].a
+		}
+		verifrt.Assert(!isNil && v == want, "an overwritten row does not carry the later value after sort and de-duplication")
+	}
+	verifrt.Reach("end")
+}
